@@ -86,7 +86,14 @@ type hcase struct {
 	Rows int  `json:"rows"`
 	Tree node `json:"tree"`
 	Ops  []op `json:"ops"`
+	// AppRoot != nil: the widget handed to App.Run is a wrapper (id 100) that
+	// delegates drawing: its Draw returns the tree root's surface, so the
+	// frame's top widget is not the application's root (the usual "return
+	// layout.Draw(ctx)" pattern)
+	AppRoot *node `json:"app_root,omitempty"`
 }
+
+const appRootID = 100
 
 // ---------------------------------------------------------------------------
 // instrumented widgets
@@ -106,11 +113,13 @@ type world struct {
 	nodes   map[int]*node
 	dropped map[int]bool // widgets currently left out of the tree
 	parent  map[int]int
-	draws   int
-	pinged  chan int
-	drawn   chan int
-	cmdSeq  int
-	cmdDone int
+	// delegating: the application root is a wrapper around node 0
+	delegating bool
+	draws      int
+	pinged     chan int
+	drawn      chan int
+	cmdSeq     int
+	cmdDone    int
 }
 
 type (
@@ -123,8 +132,11 @@ type (
 )
 
 type tw struct {
-	n  *node
-	wd *world
+	n    *node
+	wd   *world
+	root bool // the widget App.Run was given
+	// delegate: Draw returns this widget's surface instead of an own one
+	delegate vxfw.Widget
 }
 
 type twCap struct{ tw }
@@ -173,7 +185,7 @@ func (t *tw) consumes(ev string, phase string) bool {
 func (t *tw) handle(ev vaxis.Event, phase string) (vxfw.Command, error) {
 	switch ev := ev.(type) {
 	case evPing:
-		if t.n.ID == 0 {
+		if t.root {
 			select {
 			case t.wd.pinged <- ev.n:
 			default:
@@ -183,7 +195,7 @@ func (t *tw) handle(ev vaxis.Event, phase string) (vxfw.Command, error) {
 		}
 		return nil, nil
 	case evDo:
-		if t.n.ID == 0 {
+		if t.root {
 			t.wd.mu.Lock()
 			first := t.wd.cmdDone < ev.seq
 			t.wd.cmdDone = ev.seq
@@ -236,6 +248,18 @@ func (t *twCap) CaptureEvent(ev vaxis.Event) (vxfw.Command, error) {
 func (t *tw) self() vxfw.Widget { return t.wd.widgets[t.n.ID] }
 
 func (t *tw) Draw(ctx vxfw.DrawContext) (vxfw.Surface, error) {
+	if t.delegate != nil {
+		s, err := t.delegate.Draw(ctx)
+		t.wd.mu.Lock()
+		t.wd.draws++
+		d := t.wd.draws
+		t.wd.mu.Unlock()
+		select {
+		case t.wd.drawn <- d:
+		default:
+		}
+		return s, err
+	}
 	s := vxfw.NewSurface(uint16(t.n.W), uint16(t.n.H), t.self())
 	for i := range s.Buffer {
 		s.Buffer[i] = vaxis.Cell{Character: vaxis.Character{Grapheme: string(rune('a' + t.n.ID%26)), Width: 1}}
@@ -253,7 +277,7 @@ func (t *tw) Draw(ctx vxfw.DrawContext) (vxfw.Surface, error) {
 		ss.ZIndex = k.Z
 		s.Children = append(s.Children, ss)
 	}
-	if t.n.ID == 0 {
+	if t.root {
 		t.wd.mu.Lock()
 		t.wd.draws++
 		d := t.wd.draws
@@ -293,7 +317,7 @@ func (wd *world) build(n *node) {
 	for i := range n.Kids {
 		wd.parent[n.Kids[i].ID] = n.ID
 	}
-	base := tw{n: n, wd: wd}
+	base := tw{n: n, wd: wd, root: n.ID == 0 && !wd.delegating}
 	if n.Capture {
 		wd.widgets[n.ID] = &twCap{base}
 	} else {
@@ -590,8 +614,21 @@ func runHistory(w *harness.W, c hcase, sample bool) {
 		w.Inconclusive("app-start-failed")
 		return
 	}
+	e.wd.delegating = c.AppRoot != nil
 	e.wd.build(&c.Tree)
 	root := e.wd.widgets[0]
+	if c.AppRoot != nil {
+		c.AppRoot.ID = appRootID
+		e.wd.nodes[appRootID] = c.AppRoot
+		e.wd.parent[0] = appRootID
+		base := tw{n: c.AppRoot, wd: e.wd, root: true, delegate: e.wd.widgets[0]}
+		if c.AppRoot.Capture {
+			e.wd.widgets[appRootID] = &twCap{base}
+		} else {
+			e.wd.widgets[appRootID] = &base
+		}
+		root = e.wd.widgets[appRootID]
+	}
 	go func() { e.done <- e.app.Run(root) }()
 	quit := func() {
 		e.n++
@@ -620,6 +657,12 @@ func runHistory(w *harness.W, c hcase, sample bool) {
 	m := &model{root: &c.Tree, nodes: map[int]*node{}, parent: map[int]int{}, dropped: map[int]bool{}, entered: map[int]bool{}}
 	m.index(&c.Tree, -1)
 	m.focused = 0
+	if c.AppRoot != nil {
+		m.nodes[appRootID] = c.AppRoot
+		m.parent[0] = appRootID
+		m.parent[appRootID] = -1
+		m.focused = appRootID
+	}
 	// per-widget alternation of enter/leave over the whole history
 	hover := map[int]bool{}
 	fail := func(key, what string, i int, got []entry, want string) {
@@ -782,8 +825,12 @@ func runHistory(w *harness.W, c hcase, sample bool) {
 			// after a frame the focus falls back to the root when the
 			// focused widget is no longer drawn
 			if !m.inTree(m.focused) {
-				want = append(want, exp{entry{m.focused, "focus-out", "target"}, false}, exp{entry{0, "focus-in", "target"}, false})
-				m.focused = 0
+				rootID := 0
+				if c.AppRoot != nil {
+					rootID = appRootID
+				}
+				want = append(want, exp{entry{m.focused, "focus-out", "target"}, false}, exp{entry{rootID, "focus-in", "target"}, false})
+				m.focused = rootID
 			}
 			if o.Kind == "relayout" && m.mouseIn {
 				// hover follows the new layout: not modelled step by step, only alternation
@@ -895,6 +942,9 @@ func ids(n *node, out *[]int) {
 func genOps(r gen.R, c *hcase, n int) {
 	var all []int
 	ids(&c.Tree, &all)
+	if c.AppRoot != nil {
+		all = append(all, appRootID)
+	}
 	for i := 0; i < n; i++ {
 		switch k := r.Intn(20); {
 		case k < 4:
@@ -912,8 +962,10 @@ func genOps(r gen.R, c *hcase, n int) {
 		case k < 19:
 			c.Ops = append(c.Ops, op{Kind: "cmd", Cmd: []string{"redraw", "refresh+redraw", "batch"}[r.Intn(3)]})
 		default:
-			if len(all) > 1 {
-				c.Ops = append(c.Ops, op{Kind: "relayout", ID: all[1+r.Intn(len(all)-1)]})
+			var tree []int
+			ids(&c.Tree, &tree)
+			if len(tree) > 1 {
+				c.Ops = append(c.Ops, op{Kind: "relayout", ID: tree[1+r.Intn(len(tree)-1)]})
 			}
 		}
 	}
@@ -926,6 +978,9 @@ func (c check) Run(w *harness.W, b harness.Batch) {
 	for i := 0; i < s.N; i++ {
 		hc := hcase{Cols: 12 + r.Intn(20), Rows: 4 + r.Intn(8)}
 		hc.Tree = genTree(r, hc.Cols, hc.Rows, i%3 == 2)
+		if i%4 == 1 {
+			hc.AppRoot = &node{ID: appRootID, Capture: r.Intn(2) == 0}
+		}
 		genOps(r, &hc, 40)
 		runHistory(w, hc, i == 0)
 		// a broken router makes every history wait for its timeouts: a few
